@@ -39,6 +39,15 @@ def generate(rng, tier):
     off = rng.randrange(step)
     for a in all_atts[off::step]:
         yield ("runs", [[rng.choice(TEXTS[:4]), list(a)]])
+    # two or three neighbouring runs with IDENTICAL formatting (what a merging / grouping optimisation would look at)
+    # whose texts are fragments of the escape codes themselves: digits, '[', ';', 'm', '1m', '31', ESC-less look-alikes
+    frags = ["m", "[", ";", "0", "1", "3", "4", "9", "31", "1m", "[3", "39m", "x"]
+    fmts = [[2, 0, 0, 0, 0, 0, 0, 0], [0, 5, 0, 0, 0, 0, 0, 0], [5, 0, 1, 0, 0, 0, 0, 0], [2, 3, 1, 0, 0, 1, 0, 1], [0, 0, 0, 0, 1, 0, 0, 0]]
+    for a in fmts:
+        for t1 in (frags if tier == "thorough" else rng.sample(frags, 7)):
+            t2 = rng.choice(frags)
+            yield ("runs", [[t1, list(a)], [t2, list(a)]])
+            yield ("runs", [[t1, list(a)], [t2, list(a)], [t1 + t2, list(a)]])
     n = 6000 if tier == "thorough" else 800
     for _ in range(n):
         if rng.random() < 0.7:
